@@ -11,7 +11,7 @@ import ast
 from .. import AnalysisError, AnchorMissing
 from ..cfg import cfg_of
 from ..model import own_nodes
-from ..values import pattern, match, match_any, find, contains, show, subterms
+from ..values import pattern, match, match_any, find, contains, show, subterms, alias
 from ..domains import polarity, POS, NEG, ZERO
 from .base import obligation, src, callee_name
 from .C04 import pattern_term, returns, enclosing_loop, _inside
@@ -318,7 +318,7 @@ def c10_e(ctx):
     gp = ctx.cls(GP)
     up = ctx.own_method(gp, 'update')
     ex = ctx.ex(up)
-    mk = [c for c in ctx.calls(up) if callee_name(c) == '_make_gpy_instance' or
+    mk = [c for c in ctx.calls(up) if callee_name(c) == alias('_make_gpy_instance') or
           match(ex.term(c), pattern('GPy.models.GPRegression(*_)')) is not None]
     if not mk:
         raise AnchorMissing('update does not rebuild the GP')
